@@ -239,6 +239,48 @@ func c12r3(c *Ctx) {
 	if ndec == 0 {
 		c.Anchor(rule, "hex.DecodeString in package parsers")
 	}
+	// (c0) numeric builder methods: the bytes that get hex-encoded are math/big's canonical big-endian magnitude of the
+	// parameter (what the parser side, SetBytes, inverts) — handed to hex.EncodeToString, to a helper, or the method delegates
+	// to a sibling numeric method with the converted parameter
+	for _, fn := range c.P.Funcs {
+		if !c.P.InPkgs(fn, "txDataBuilder") || fn.Signature.Recv() == nil || len(fn.Params) != 2 || !isExportedAPI(fn) {
+			continue
+		}
+		par := fn.Params[1]
+		isNum := isInteger(par.Type()) && par.Type().Underlying().(*types.Basic).Kind() != types.Uint8 || isBigIntPtr(par.Type())
+		if !isNum {
+			continue
+		}
+		e := c.P.Env(fn)
+		pt := "P:" + paramName(par)
+		want := map[string]bool{"Bytes(bigI(" + pt + "))": true, "Bytes(" + pt + ")": true, "Bytes(bigU(" + pt + "))": true}
+		good := ""
+		for _, b := range fn.Blocks {
+			for _, in := range b.Instrs {
+				call, ok := in.(*ssa.Call)
+				if !ok {
+					continue
+				}
+				for _, a := range call.Call.Args {
+					if want[e.Term(a)] {
+						good = e.Term(a) + " handed to " + CalleeName(call)
+					}
+					// delegation: Int(v) { return b.Int64(int64(v)) }
+					if sc := call.Call.StaticCallee(); sc != nil && sc != fn && sc.Signature.Recv() != nil && c.P.InPkgs(sc, "txDataBuilder") && e.LE(a).String() == pt && isInteger(a.Type()) {
+						good = "delegates to " + sc.Name() + " with the parameter"
+					}
+				}
+			}
+		}
+		construct := fn.Name() + ": number encoded as big-endian magnitude of " + pt
+		if good != "" {
+			c.OK(rule, FuncName(fn), construct, c.P.Pos(fn.Pos()), good)
+		} else {
+			c.FailX(Oblig{Rule: rule, Func: FuncName(fn), Construct: construct, Pos: c.P.Pos(fn.Pos()), Kind: "violation",
+				Detail:   "the number is not encoded through math/big's Bytes() of the parameter: the parsers decode arguments with SetBytes, which inverts exactly that encoding (a hand-rolled trimming of zero bytes loses the low-order zero bytes of multiples of 256)",
+				Expected: "hex.EncodeToString(big.NewInt(v).Bytes())"})
+		}
+	}
 	// (c) builder: every element appended to the argument list is a hex.EncodeToString result (SetLast is raw by contract);
 	// ToString concatenates function, then sep+element per element
 	for _, fn := range c.P.Funcs {
